@@ -55,9 +55,9 @@ def _region(n, combo, grid):
         r.z = [0.0, 0.2]
         _REG[key] = r
     import copy
-    r = copy.copy(_REG[key])
-    r.coolant_int_params = {k: (v.copy() if hasattr(v, 'copy') else v) for k, v in _REG[key].coolant_int_params.items()}
-    return r
+    # deep copy: the real set-up stores arrays in nested dictionaries (corr_constants); a symbolic run must not
+    # leave object arrays behind for the concrete replay in the same process
+    return copy.deepcopy(_REG[key])
 
 
 def body_eval(env):
